@@ -39,6 +39,9 @@ def install_unassumed():
             orig = con.ensures
             con.ensures = (lambda orig, clause: (lambda c: [(n, cl) for n, cl in orig(c) if n != clause]))(orig, clause)
             con._verify_ensures = orig
+        for qual in k.get("unassume_exc_safe", []):
+            if qual in REGISTRY:
+                REGISTRY[qual].assume_exc_safe = False
     # the function's own verification still checks the full list
     return
 
